@@ -53,10 +53,17 @@ def run(ctx):
         "abstract answers come from a fixed scene whose stated properties (edge counts, separations) are asserted by the harness at start",
         "hang detection: a history that does not finish within 20 s is reported as a hang",
     ]
+    # vacuity guard: on the literal transcription of the original (defective) implementation TLC must
+    # find a history that violates the invariants
+    for mode, ln in (("eq", 2), ("index", 3), ("loop", 3)):
+        c = vlib.cfg(constants={"Mode": '"%s"' % mode, "MaxLen": ln, "AsImplemented": True}, invariants=INV)
+        r = ctx.tlc("IndexLifecycle", c, workers=2, allow_violation=True, count=False)
+        if r.ok:
+            raise vlib.Infra("IndexLifecycle invariants accept the AsImplemented variant in mode %s (vacuous model)" % mode)
     hs = []
     hs += hist(ctx, "index", 4 if q else 5)
     hs += hist(ctx, "eq", 2 if q else 3)
-    hs += hist(ctx, "loop", 4 if q else 5)
+    hs += hist(ctx, "loop", 3 if q else 4)
     for mode, ln, n in [("index", 9, 150 if q else 1500), ("eq", 6, 150 if q else 1500), ("loop", 8, 100 if q else 800)]:
         hs += hist(ctx, mode, ln, simulate=n, seed=ctx.seed * 10 + ln)
     uniq = {}
